@@ -280,8 +280,72 @@ impl Part for Names {
     }
 }
 
+
+/// The same classification must come out when the 4 bytes travel inside packets (SLC.cname, NPL.cname, RES.cname):
+/// a packet-level wrapper must not bypass or alter the identifier codec.
+pub struct ViaPackets;
+impl Part for ViaPackets {
+    type Case = [u8; 4];
+    fn name(&self) -> &'static str {
+        "through-slc-npl-res-frames"
+    }
+    fn check(&self, c: &[u8; 4], ev: &mut Local) -> Result<(), Fail> {
+        use insim::net::{Codec, Mode};
+        let want = reference(*c);
+        let codec = Codec::new(Mode::Uncompressed);
+        // (type, frame length, offset of the identifier)
+        for (name, ty, len, off) in [("Slc", 62u8, 8usize, 4usize), ("Npl", 21, 76, 40), ("Res", 35, 84, 60)] {
+            let mut f = vec![0u8; len];
+            f[0] = len as u8;
+            f[1] = ty;
+            f[off..off + 4].copy_from_slice(c);
+            if name == "Npl" {
+                for t in 60..64 {
+                    f[t] = 255; // tyres: NoChange
+                }
+            }
+            let mut b = bytes::BytesMut::from(&f[..]);
+            let r = guard(|| codec.decode(&mut b)).map_err(|p| Fail::new("c13:panic", format!("{name} {c:02x?}: {p}")))?;
+            match (&want, r) {
+                (Expect::Error, Err(_)) => {},
+                (Expect::Error, Ok(p)) => fail!("c13:unknown-builtin-name-accepted", "{name}: {c:02x?} accepted as {p:?}"),
+                (_, Err(e)) => fail!("c13:valid-id-rejected", "{name}: {c:02x?} rejected: {e}"),
+                (w, Ok(Some(p))) => {
+                    let d = format!("{p:?}");
+                    let shown = match w {
+                        Expect::Unknown => "cname: Unknown".to_string(),
+                        Expect::Builtin(n) => format!("cname: {n}"),
+                        Expect::Mod(id) => format!("cname: MOD({id:06X})"),
+                        Expect::Error => unreachable!(),
+                    };
+                    ensure!(d.contains(&shown), "c13:packet-path-differs", "{name}: {c:02x?} expected `{shown}` in {d}");
+                    let back = guard(|| codec.encode(&p)).map_err(|p| Fail::new("c13:panic", p))?.map_err(|e| Fail::new("c13:reencode-error", format!("{name}: {e}")))?;
+                    ensure!(back[off..off + 4] == c[..], "c13:reencode-differs", "{name}: {c:02x?} -> {:02x?}", &back[off..off + 4]);
+                },
+                (_, Ok(None)) => fail!("harness:frame", "incomplete"),
+            }
+        }
+        if c[3] == 0 {
+            ev.nontrivial(c);
+        }
+        ev.class(match want {
+            Expect::Unknown => "unknown",
+            Expect::Builtin(_) => "builtin",
+            Expect::Error => "unrecognised-builtin-style-name",
+            Expect::Mod(_) => "mod",
+        });
+        Ok(())
+    }
+    fn to_json(&self, c: &[u8; 4]) -> Value {
+        json!({"bytes": hex(c)})
+    }
+    fn from_json(&self, v: &Value) -> Option<[u8; 4]> {
+        unhex(v.get("bytes")?.as_str()?)?.try_into().ok()
+    }
+}
+
 pub fn parts() -> Vec<Box<dyn DynPart>> {
-    vec![Box::new(Exhaustive), Box::new(Names)]
+    vec![Box::new(Exhaustive), Box::new(Names), Box::new(ViaPackets)]
 }
 
 pub fn run(run: &mut Run) {
@@ -312,6 +376,19 @@ pub fn run(run: &mut Run) {
     }
     cases.sort();
     cases.dedup();
-    run.list(&Names, "builtin-names-and-neighbours", cases);
+    run.list(&Names, "builtin-names-and-neighbours", cases.clone());
+    run.list(&ViaPackets, "through-slc-npl-res-frames", cases);
+    {
+        use proptest::prelude::*;
+        let alnum = prop::sample::select(b"ABCFGLMORTUXZ0123456789abxz".to_vec());
+        let strat = prop_oneof![
+            3 => (alnum.clone(), alnum.clone(), alnum, prop_oneof![4 => Just(0u8), 1 => any::<u8>()]).prop_map(|(a, b, c, d)| [a, b, c, d]),
+            2 => any::<[u8; 4]>(),
+            2 => (any::<[u8; 3]>(), Just(0u8)).prop_map(|(x, d)| [x[0], x[1], x[2], d]),
+            1 => (0x80u8..=0xff, 0x80u8..=0xff, 0x80u8..=0xff).prop_map(|(a, b, c)| [a, b, c, 0]),
+        ];
+        let n = run.budget(150_000, 5_000_000);
+        run.prop(&ViaPackets, strat, n);
+    }
     run.enumerate(&Exhaustive, 65536, true, |i| Some(Case::Block(i as u16)));
 }
